@@ -93,6 +93,7 @@ fn cmp<T: Elem>(path: &str, got: &[T], want: &[T]) -> Result<(), (String, String
 }
 
 fn guarded<R>(path: &str, f: impl FnOnce() -> R) -> Result<R, (String, String)> {
+    crate::hooks::HUB.set_access_path(path);
     catch(f).map_err(|p| (path.to_string(), format!("panicked: {p}")))
 }
 
@@ -708,6 +709,17 @@ pub fn make_nopco<T: Elem + vecdb::ZeroCopyVecValue + vecdb::LZ4VecValue + vecdb
     Some(match format {
         "bytes" => Box::new(bytes::Holder::<T> { name, v: None }),
         "zerocopy" => Box::new(zerocopy::Holder::<T> { name, v: None }),
+        "lz4" => Box::new(lz4::Holder::<T> { name, v: None }),
+        "zstd" => Box::new(zstd::Holder::<T> { name, v: None }),
+        _ => return None,
+    })
+}
+
+/// Byte arrays: bytes, lz4, zstd.
+pub fn make_bytes_lz4_zstd<T: Elem + vecdb::LZ4VecValue + vecdb::ZstdVecValue>(format: &str, name: &str) -> Option<Box<dyn Vut<T>>> {
+    let name = name.to_string();
+    Some(match format {
+        "bytes" => Box::new(bytes::Holder::<T> { name, v: None }),
         "lz4" => Box::new(lz4::Holder::<T> { name, v: None }),
         "zstd" => Box::new(zstd::Holder::<T> { name, v: None }),
         _ => return None,
